@@ -426,8 +426,57 @@ def run_the_operand_case(p):
     return None
 
 
+def run_predform_case(p):
+    """C13: T(From(d), fields...) == explicit query with one equality per given field; the variable ranges over exactly
+    the members of d that are instances of T (subclasses included)"""
+    from entity_query_language import symbolic_mode, let, an, entity, From, and_
+    O.reset_registry()
+    rng = random.Random(p['seed'])
+    names = ['a', 'b']
+    mk = [lambda: O.PBase(rng.choice(names), rng.choice([1, 2])), lambda: O.PSub(rng.choice(names), rng.choice([1, 2]), 5),
+          lambda: O.POther(rng.choice(names), rng.choice([1, 2]))]
+    n = rng.choice([0, 3, 4, 5]) if p.get('allow_empty') else rng.choice([3, 4, 5])
+    dom = [rng.choice(mk)() for _ in range(n)]
+    T = rng.choice([O.PBase, O.PSub])
+    style = rng.choice(['kw_name', 'pos_name', 'pos_name_size', 'kw_size', 'none', 'let'])
+    v_name, v_size = rng.choice(names), rng.choice([1, 2])
+    try:
+        with symbolic_mode():
+            if style == 'kw_name':
+                q = T(From(dom), name=v_name)
+                fields = {'name': v_name}
+            elif style == 'pos_name':
+                q = T(From(dom), v_name)
+                fields = {'name': v_name}
+            elif style == 'pos_name_size':
+                q = T(From(dom), v_name, v_size)
+                fields = {'name': v_name, 'size': v_size}
+            elif style == 'kw_size':
+                q = T(From(dom), size=v_size)
+                fields = {'size': v_size}
+            elif style == 'none':
+                q = an(entity(T(From(dom))))
+                fields = {}
+            else:
+                x = let(type_=T, domain=dom)
+                q = an(entity(x))
+                fields = {}
+        got = list(q.evaluate())
+        want = [o for o in dom if isinstance(o, T) and all(getattr(o, f) == v for f, v in fields.items())]
+    except Exception as e:  # noqa
+        return {'style': style, 'exception': repr(e), 'trace': traceback.format_exc(limit=4)}
+    if not O.same_list_by_identity(got, want):
+        return {'style': style, 'type': T.__name__, 'fields': fields, 'domain': repr([(type(o).__name__, o.name, o.size) for o in dom]),
+                'got': repr([(type(o).__name__, o.name, o.size) for o in got]),
+                'want': repr([(type(o).__name__, o.name, o.size) for o in want]),
+                'signature_kind': 'empty-or-no-instance-domain' if not [o for o in dom if isinstance(o, T)] else 'mismatch'}
+    return None
+
+
 def run_case(p):
     """returns None if the real engine agrees with the reference, else a description of the disagreement."""
+    if p.get('kind') == 'predform':
+        return run_predform_case(p)
     if p.get('kind') == 'reuse':
         return run_reuse_case(p)
     if p.get('kind') == 'domain_subquery':
